@@ -16,12 +16,12 @@ for line in open(os.path.join(src, "confirm.txt")):
         conf[k] = v
     elif "tests passed" in line:
         conf["suite_summary"] = line.strip()
-meta["property"] = pid
+meta["property"] = pid.split("_")[-1]
 meta["confirmed_by_me"] = {
     "how": "tools/confirm_mutant.sh in scratch worktree /tmp/confirm_wt at /repo HEAD: patch applied, demo built and run on the original and the changed tree, full existing suite built and run (ctest -E unbounded_unlimited_queue)",
     "result": conf,
 }
-meta["checked_with"] = "tools/try_mutant.sh %s <patch> (git -C /repo apply, ./check %s --tier quick, git checkout)" % (pid, pid)
+meta["checked_with"] = "tools/try_mutant.sh %s <patch> (git -C /repo apply, ./check %s --tier quick, git checkout)" % (sys.argv[5] if len(sys.argv) > 5 else pid.split("_")[-1], sys.argv[5] if len(sys.argv) > 5 else pid.split("_")[-1])
 meta["detected_by_check"] = detected
 meta["check_report"] = note
 json.dump(meta, open(os.path.join(dst, "meta.json"), "w"), indent=1)
